@@ -142,7 +142,13 @@ func HCall(call, deep int) {
 	flag := 0
 	perm := uint32(0)
 	nuid, ngid := 0, 0
+	tsize := int64(0)
 	switch name {
+	case "Truncate":
+		// the new size straddles the current size (a call that changes nothing
+		// is checked like any other)
+		tsize = sym.Int64("tsize")
+		sym.Assume(tsize >= 0 && tsize <= 2)
 	case "OpenFile":
 		flag = sym.Int("flag") & (3 | posix.OTrunc | posix.OAppend)
 		sym.Assume(flag&3 != 3)
@@ -196,7 +202,7 @@ func HCall(call, deep int) {
 		case "Chtimes":
 			return s.Chtimes(target), 0
 		case "Truncate":
-			return s.Truncate(target, 0), 0
+			return s.Truncate(target, tsize), 0
 		case "Readlink":
 			_, c := s.Readlink("/w/d/l")
 			return c, 0
